@@ -346,9 +346,13 @@ class Pbox(NominalValueMixin, ABC):
 
         return I(lo=self.left, hi=self.right)
 
-    def to_dss(self, discretisation=Params.steps):
+    def to_dss(self, discretisation=None):
         """convert pbox to DempsterShafer object"""
         from .dss import DempsterShafer
+
+        if discretisation is None:
+            # read at call time: a default bound at import ignores a reconfigured Params.steps
+            discretisation = Params.steps
 
         return DempsterShafer(
             self.to_interval(),
